@@ -1,6 +1,7 @@
 package rules
 
 import (
+	"go/constant"
 	"go/token"
 	"go/types"
 	"sort"
@@ -933,6 +934,79 @@ func c10(c *core.Ctx) {
 	})
 
 	// ------------------------------------------------------------------------------------------------------------------
+	c.Clause("C10.6b", "a restarted node ranks what a running node ranks: the candidates NewChainDataBase hands to Top.Rank are only those whose stored profile says isCandidate == true")
+	c.Run("restart-filter", func() {
+		ncd := c.Fn("store.NewChainDataBase")
+		rank := core.CallsIn(ncd, c.Method("store.VoteTop", "Rank"))
+		c.Floor("NewChainDataBase/Rank-calls", len(rank), 1)
+		isCandKey := constant.StringVal(c.Const("chain/types.CandidateKeyIsCandidate").Val())
+		isCandFn := c.Method("store.ChainDatabase", "isCandidate")
+		// an append is "flag-filtered" when it is dominated by a test whose condition reads Profile[isCandidate] (or calls isCandidate)
+		filtered := func(fn *ssa.Function, ap ssa.Instruction) bool {
+			for _, b := range fn.Blocks {
+				ifi, isIf := b.Instrs[len(b.Instrs)-1].(*ssa.If)
+				if !isIf || !b.Dominates(ap.Block()) || b == ap.Block() {
+					continue
+				}
+				sl := core.Slice(ifi.Cond)
+				reads := core.SliceHasCall(sl, isCandFn)
+				for v := range sl {
+					if lk, isLk := v.(*ssa.Lookup); isLk {
+						if k, isK := lk.Index.(*ssa.Const); isK && k.Value != nil && k.Value.Kind() == constant.String && constant.StringVal(k.Value) == isCandKey {
+							reads = true
+						}
+					}
+				}
+				if !reads {
+					continue
+				}
+				// the append must lie on one side only of that test
+				if core.CanReach(b.Succs[0], ap.Block(), b) != core.CanReach(b.Succs[1], ap.Block(), b) {
+					return true
+				}
+			}
+			return false
+		}
+		var appendsOf func(fn *ssa.Function, v ssa.Value, depth int) (aps []ssa.Instruction, owner []*ssa.Function)
+		appendsOf = func(fn *ssa.Function, v ssa.Value, depth int) ([]ssa.Instruction, []*ssa.Function) {
+			var aps []ssa.Instruction
+			var owner []*ssa.Function
+			for x := range core.Slice(v) {
+				call, isCall := x.(*ssa.Call)
+				if !isCall {
+					continue
+				}
+				if bi, isB := call.Call.Value.(*ssa.Builtin); isB && bi.Name() == "append" {
+					aps = append(aps, call)
+					owner = append(owner, fn)
+					continue
+				}
+				if callee := core.StaticFn(call); callee != nil && core.RelPkg(callee) == "store" && callee.Blocks != nil && depth < 2 {
+					// a helper that produces the list: its returned slice's appends count
+					if _, isSl := call.Type().Underlying().(*types.Slice); isSl {
+						for _, r := range core.Returns(callee) {
+							a2, o2 := appendsOf(callee, core.RetVal(r, 0), depth+1)
+							aps = append(aps, a2...)
+							owner = append(owner, o2...)
+						}
+					}
+				}
+			}
+			return aps, owner
+		}
+		for i, g := range rank {
+			a := g.Common().Args
+			aps, owners := appendsOf(ncd, a[len(a)-1], 0)
+			ok := len(aps) >= 1
+			for k, ap := range aps {
+				if !filtered(owners[k], ap) {
+					ok = false
+				}
+			}
+			c.Check("NewChainDataBase:Rank(only isCandidate==true)"+suffix(i, len(rank)), "guarded-action", ok, g.Pos(), "every element of the list ranked at start-up was appended under a test of the stored isCandidate flag (%d appends found)", len(aps))
+		}
+	})
+
 	c.Clause("C10.6", "restart repopulates what has no disk fallback: NewChainDataBase inserts every reloaded candidate it ranks into LastConfirm.CandidateTrieDB (the all-candidates index, whose only reader GetAll never falls back to disk) before returning")
 	c.Run("restart", func() {
 		ncd := c.Fn("store.NewChainDataBase")
